@@ -69,6 +69,8 @@ pub struct Director {
     pub w: W,
     pub pool: Option<MPool>,
     pub clones: Vec<MPool>,
+    /// handles obtained through `Object::pool()` (they hand out plain `Object`s)
+    pub obj_handles: Vec<Pool<ScriptedManager>>,
     pub tasks: Vec<Task>,
     pub held: Vec<MObject>,
     pub external: Vec<Obj>,
@@ -109,6 +111,7 @@ impl Director {
             w,
             pool: Some(pool),
             clones: Vec::new(),
+            obj_handles: Vec::new(),
             tasks: Vec::new(),
             held: Vec::new(),
             external: Vec::new(),
@@ -182,17 +185,28 @@ impl Director {
                 closed_at_start: closed,
             });
         }
+        // every third call goes through a handle that was obtained from an object (`Object::pool()`), if there
+        // is one: the same pool, whatever handle is used
+        let via = if t % 3 == 2 { self.obj_handles.get(t % 2).or(self.obj_handles.first()).cloned() } else { None };
+        if via.is_some() {
+            let mut w = self.world();
+            w.bump("gets_through_object_handle");
+        }
         let fut: Pin<Box<dyn Future<Output = Res>>> = Box::pin(async move {
             let inner = async {
-                match kind.per_call {
-                    None => pool.get().await,
-                    Some(ct) => {
-                        pool.timeout_get(&Timeouts {
+                match (kind.per_call, via) {
+                    (None, None) => pool.get().await,
+                    (None, Some(h)) => h.get().await.map(Wrapped::from),
+                    (Some(ct), via) => {
+                        let ts = Timeouts {
                             wait: ct.wait,
                             create: ct.create,
                             recycle: ct.recycle,
-                        })
-                        .await
+                        };
+                        match via {
+                            None => pool.timeout_get(&ts).await,
+                            Some(h) => h.timeout_get(&ts).await.map(Wrapped::from),
+                        }
                     }
                 }
             };
@@ -315,6 +329,11 @@ impl Director {
             Res::Got(obj) => {
                 let id = obj.id;
                 let m = *Object::metrics(&obj);
+                if self.obj_handles.len() < 2 && (id as usize + t) % 4 == 0 {
+                    if let Some(h) = Object::pool(&obj) {
+                        self.obj_handles.push(h);
+                    }
+                }
                 let mut w = self.world();
                 w.ev(format!("  t{} -> Ok(obj{}) rc={}", t, id, m.recycle_count));
                 w.tasks[t].phase = Phase::Done;
@@ -807,7 +826,9 @@ impl Director {
         self.world().pool_dropped = true;
         let p = self.pool.take();
         let c = std::mem::take(&mut self.clones);
+        let oh = std::mem::take(&mut self.obj_handles);
         let r = catch_unwind(AssertUnwindSafe(move || {
+            drop(oh);
             drop(c);
             drop(p);
         }));
